@@ -349,7 +349,10 @@ func c14JSON(idx int, rng *rand.Rand) Case {
 		blank, term bool
 		ok          bool
 		doc         jsonTargetDoc
+		raw         []byte
+		written     bool // a line the real encoder wrote (not hand-written text)
 	}
+	written := map[string]bool{}
 	var lines []lineinfo
 	for i := 0; i < n; i++ {
 		t := vegeta.Target{Method: []string{"GET", "POST", "PUT"}[rng.Intn(3)], URL: fmt.Sprintf("http://j%d.example/%d", rng.Intn(3), i)}
@@ -373,9 +376,11 @@ func c14JSON(idx int, rng *rand.Rand) Case {
 			src.WriteString([]string{"{\"method\":\"GET\"}\n", "{\"url\":\"http://x\"}\n", "{not json}\n", "[]\n", "{}\n"}[rng.Intn(5)])
 			continue
 		}
+		at := src.Len()
 		if err := enc.Encode(&t); err != nil {
 			panic(err)
 		}
+		written[strings.TrimSuffix(string(src.Bytes()[at:]), "\n")] = true
 		w := vegeta.Target{Method: t.Method, URL: t.URL, Body: db, Header: http.Header{}}
 		if len(t.Body) > 0 {
 			w.Body = t.Body
@@ -410,6 +415,8 @@ func c14JSON(idx int, rng *rand.Rand) Case {
 			dec := json.NewDecoder(bytes.NewReader(tl))
 			li.ok = dec.Decode(&li.doc) == nil && !dec.More()
 		}
+		li.raw = append([]byte(nil), l...)
+		li.written = written[string(l)]
 		lines = append(lines, li)
 	}
 	var c Case
@@ -417,6 +424,7 @@ func c14JSON(idx int, rng *rand.Rand) Case {
 	w.Z(2)
 	w.I(len(lines))
 	for _, li := range lines {
+		w.Bool(li.written)
 		w.Bool(li.blank); w.Bool(li.term)
 		if li.ok {
 			w.Z(1)
@@ -424,6 +432,7 @@ func c14JSON(idx int, rng *rand.Rand) Case {
 		} else {
 			w.Z(0)
 		}
+		w.Bytes(li.raw)
 	}
 	w.Bytes(db)
 	before := cloneHeader(dh)
